@@ -589,11 +589,11 @@ class Util:
 
         time_string = str(time_string).upper()
 
-        if time_string.endswith('MS') or time_string.endswith('MSEC'):
-            return int(time_string[:-2])
-
         if time_string.endswith('MSEC'):
             return int(time_string[:-4])
+
+        if time_string.endswith('MS'):
+            return int(time_string[:-2])
 
         if time_string.endswith('D'):
             return int(float(time_string[:-1]) * 86400 * 1000)
